@@ -432,6 +432,10 @@ EDGE = [
     "1 /* {a:[[1],\n// x\n2]} */", "{\"a\":[[1]], \"b\":[] // x\n}",
     "1 // x ### c\nd ### e\n2", "1 // x ### c ###\n", "1 // x ### c", "1 // x ###", "1 // x ## c\n", "1 // x # c\n", "{\"a\":1, // n ### c\nd ###\n\"b\":2}", "1 // {} - n ### c\n ### \n",
     "1 // {min:1} ### c\n###\n", "1 /* {a:1 // n ### c\n} */", "[1, // n ### c\n ### // m\n2]", "1 // x ### c\n### // y\n",
+    # seventh round (fixes 3cd814f 2bf15a3): a slash as the last byte behind a schema; texts of annotations only
+    "{}\n/", "{} /", "{}/", "1\n/", "\"a\"\n/", "@T\n/", "1 // {min: 0}\n/", "[1]\n/", "[1] /", "1 /", "1 // x\n/", "{\"a\":[1]}\n/", "1 /* x */ /", "1 # c\n/",
+    "// x", "/* x */", "// x\n", " \n// type", "# c\n// x", "/* x */ /* y */", "/* x */ // y", "// {min: 1}", "/* {min: 1} */\n", "// x\n1", "/* x */ 1", "// {min: 1}\n1",
+    "// x\n// y\n2", "/* {a:1} */ x", "// x\n@t", "/* x */ [1]", "// x\nfoo", "/* {a:[1]} */", "// {a:{b:1}}\n",
 ]
 
 
